@@ -434,7 +434,7 @@ func NewSolver(kind string) *Solver {
 		panic(err)
 	}
 	s := &Solver{kind: kind, cmd: cmd, in: in, out: bufio.NewReader(outp), decl: map[string]bool{}}
-	fmt.Fprintln(in, "(set-option :produce-models true)\n(set-option :global-declarations true)\n(set-logic ALL)\n(declare-fun pf_val ((_ BitVec 64) (_ BitVec 64) Bool Bool Bool) (_ FloatingPoint 11 53))\n(declare-fun pf_range ((_ BitVec 64) (_ BitVec 64) Bool Bool Bool) Bool)")
+	fmt.Fprintln(in, "(set-option :produce-models true)\n(set-option :global-declarations true)\n(set-logic ALL)\n(declare-fun pf_val ((_ BitVec 64) (_ BitVec 64) Bool Bool Bool) (_ FloatingPoint 11 53))\n(declare-fun pf_range ((_ BitVec 64) (_ BitVec 64) Bool Bool Bool) Bool)\n(declare-fun uf_pow ((_ FloatingPoint 11 53) (_ FloatingPoint 11 53)) (_ FloatingPoint 11 53))\n(declare-fun uf_mod ((_ FloatingPoint 11 53) (_ FloatingPoint 11 53)) (_ FloatingPoint 11 53))\n(declare-fun uf_atan2 ((_ FloatingPoint 11 53) (_ FloatingPoint 11 53)) (_ FloatingPoint 11 53))\n(declare-fun uf_log ((_ FloatingPoint 11 53)) (_ FloatingPoint 11 53))\n(declare-fun uf_exp ((_ FloatingPoint 11 53)) (_ FloatingPoint 11 53))\n(declare-fun uf_sin ((_ FloatingPoint 11 53)) (_ FloatingPoint 11 53))\n(declare-fun uf_cos ((_ FloatingPoint 11 53)) (_ FloatingPoint 11 53))\n(declare-fun uf_sqrt ((_ FloatingPoint 11 53)) (_ FloatingPoint 11 53))")
 	return s
 }
 
